@@ -249,9 +249,25 @@ func (fv *FuncVC) keepProtected(st *State, keys []string) func() {
 		}
 		fv.assumed["immutable after construction: "+im.Spec] = true
 	}
+	type cv struct {
+		k   HeapKey
+		ref string
+		val string
+	}
+	var cells []cv
+	for _, ic := range fv.immuneCells {
+		for _, hk := range fv.m.CellKeys(ic.t) {
+			if !inKeys[hk.Key] {
+				cells = append(cells, cv{hk, ic.ref, fv.m.Sel(fv.m.heapGet(st, hk), ic.ref)})
+			}
+		}
+	}
 	return func() {
 		for _, s := range saved {
 			st.heap[s.k.Key] = s.t
+		}
+		for _, c := range cells {
+			fv.ctx.Assume(Eq(Select(fv.m.heapGet(st, c.k), c.ref), c.val))
 		}
 	}
 }
@@ -262,6 +278,7 @@ func (fv *FuncVC) havocKeys(st *State, keys []string, all bool) {
 		fv.ctx.nfresh++
 		st.heap = map[string]string{}
 		st.epoch = 1000000 + fv.ctx.nfresh
+		st.mergedFrom = nil
 		st.touch()
 		restore()
 	} else {
@@ -300,6 +317,33 @@ func (fv *FuncVC) callStatic(fr *Frame, st *State, reach string, callee *ssa.Fun
 				fv.havocKeys(st, keys, all)
 				fv.havocAddrArgs(st, args)
 				return fv.freshResult(st, reach, rt, "ret."+callee.Name())
+			}
+		}
+	}
+	if fv.con != nil && fr.depth <= 1 && con != nil && con.HasAssigns {
+		for _, h := range fv.con.FrameCalls {
+			if h == callee.Name() {
+				// abstracted by the frame its own contract declares
+				fv.havoced[funcKey(callee)+" (abstracted by the assigns clause of its contract: `frames`)"] = true
+				names := map[string]Val{}
+				for i, p := range callee.Params {
+					if i < len(args) {
+						names[p.Name()] = args[i]
+					}
+				}
+				pre := st.Clone()
+				env := &SpecEnv{fv: fv, names: names, cur: pre, old: pre, pkg: pkgOf(callee), con: con}
+				fv.applyAssigns(env, st, con.Assigns, callee, false)
+				res := fv.freshResult(st, reach, rt, "ret."+callee.Name())
+				// trusted clauses are unconditional facts about the callee (justified outside this proof)
+				fv.bindResults(names, res, rt)
+				env2 := &SpecEnv{fv: fv, names: names, cur: st, old: pre, pkg: pkgOf(callee), con: con}
+				for _, e := range con.Ensures {
+					if e.Trusted {
+						fv.ctx.Assume(Implies(reach, fv.evalClause(env2, e)))
+					}
+				}
+				return res
 			}
 		}
 	}
@@ -579,6 +623,31 @@ func (fv *FuncVC) pureAppNamed(st *State, base string, reads []string, pkg *type
 		}
 	}
 	basAs, guard := fv.allocBaseArgs(st, keys, args, as, nargs)
+	// remember the heap versions spec functions are applied to: their axioms are instantiated for each (finalize)
+	if strings.HasPrefix(base, "sp$") && len(keys) > 0 && fv.m.recording == nil {
+		hk := strings.Join(as[nargs:], " ")
+		tk := base + " " + hk
+		if fv.pureTuples == nil {
+			fv.pureTuples = map[string]*pureTuple{}
+		}
+		if _, seen := fv.pureTuples[tk]; !seen && len(fv.pureTuples) < 200 {
+			pt := &pureTuple{base: base, keys: keys, heapTerms: append([]string(nil), as[nargs:]...), sorts: append([]Sort(nil), sorts...), rt: rt}
+			for _, a := range args {
+				for _, cmp := range fv.m.Flatten(a.T) {
+					pt.argKinds = append(pt.argKinds, cmp.Kind)
+				}
+			}
+			fv.pureTuples[tk] = pt
+			fv.pureTupleOrder = append(fv.pureTupleOrder, tk)
+		}
+		if fv.axiomStates == nil {
+			fv.axiomStates = map[string]*State{}
+		}
+		if _, seen := fv.axiomStates[hk]; !seen && len(fv.axiomStates) < 40 {
+			fv.axiomStates[hk] = st.Clone()
+			fv.axiomStateOrder = append(fv.axiomStateOrder, hk)
+		}
+	}
 	cs := fv.m.Flatten(rt)
 	res := Val{T: rt, C: make([]string, len(cs))}
 	for i, c := range cs {
@@ -704,6 +773,9 @@ func (fv *FuncVC) applyAssigns(env *SpecEnv, st *State, items []AssignsItem, cal
 		case it.Computed:
 			if callee != nil {
 				ks, all := fv.v.BodyEffects(fv, callee)
+				if os.Getenv("GOCV_DEBUG") != "" {
+					fmt.Fprintf(os.Stderr, "[debug] assigns computed of %s: all=%v keys=%v\n", callee.Name(), all, ks)
+				}
 				fv.havocKeys(st, ks, all)
 			}
 		case it.All:
